@@ -441,5 +441,166 @@ package eval
 //@ macro (LEAFPARSERS $p) (forall ((j Int)) (! (=> (and (<= (off (fld $p leafNodeParser)) j) (< j (+ (off (fld $p leafNodeParser)) (len (fld $p leafNodeParser)))))
 //@      (not (= (select (arr (fld $p leafNodeParser)) j) 0))) :pattern ((select (arr (fld $p leafNodeParser)) j))))
 //@ func parser.parseInfixExpression C06 C15
-//@   requires [parser] (and (PARSER $p) (not (= (fld (fld $p conf) OperatorMap) 0)) (LEAFPARSERS $p))
+//@   requires [parser] (and (PARSER $p) (LEAFPARSERS $p))
 //@   dyncallees parser.parseInt parser.parseStr parser.parseConst parser.parseVariable parser.parseUnknownVariable parser.parseList.$1
+
+//@ func parser.buildLeafNode C06 C01
+//@   requires [parser] (and (PARSER $p) (LEAFPARSERS $p))
+//@   dyncallees parser.parseInt parser.parseStr parser.parseConst parser.parseVariable parser.parseUnknownVariable parser.parseList.$1
+
+//@ func parser.parseExpression C06 C01
+//@   requires [parser] (and (PARSER $p) (LEAFPARSERS $p))
+//@   dyncallees parser.parseInt parser.parseStr parser.parseConst parser.parseVariable parser.parseUnknownVariable parser.parseList.$1
+
+//@ func parser.parseInt C06 C01
+//@   requires [parser] (PARSER $p)
+//@ func parser.parseStr C06 C01
+//@   requires [parser] (PARSER $p)
+//@ func parser.parseConst C06 C01
+//@   requires [parser] (PARSER $p)
+//@ func parser.parseVariable C06 C01
+//@   requires [parser] (PARSER $p)
+//@ func parser.parseUnknownVariable C06 C01
+//@   requires [parser] (PARSER $p)
+//@ func parser.buildParentNode C06 C01
+//@   requires [parser] (PARSER $p)
+//@ func parser.parseConfig C06 C02
+//@   requires [parser] (PARSER $p)
+//@ func parser.parseAstTree C06 C14
+//@   requires [parser] (PARSER $p)
+//@   loop 1 (rangeindex)
+//@     invariant [kept-prefix] (and (<= 0 $n) (<= $n (+ $rangeindex 1)))
+//@   dyncallees parser.parseInt parser.parseStr parser.parseConst parser.parseVariable parser.parseUnknownVariable parser.parseList.$1
+
+// ---------------------------------------------------------------------------
+// C06 / C14 — lexer.  Facts about the uninterpreted string vocabulary (trusted, listed in the evidence):
+// a string built from n runes has at least n bytes; it is "" iff n == 0; its first byte is '"' iff its first rune is.
+//@ axiom (forall ((a (Array Int Int)) (o Int) (n Int)) (! (=> (>= n 0) (>= (strlen (strOfArr a o n)) n)) :pattern ((strOfArr a o n))))
+//@ axiom (forall ((a (Array Int Int)) (o Int) (n Int)) (! (= (= (strOfArr a o n) "") (<= n 0)) :pattern ((strOfArr a o n))))
+//@ axiom (forall ((a (Array Int Int)) (o Int) (n Int)) (! (=> (>= n 1) (= (hasPrefix (strOfArr a o n) #quote) (= (select a o) 34))) :pattern ((hasPrefix (strOfArr a o n) #quote))))
+
+//@ func parser.lex.lexComment C06 C14
+//@   inline
+//@   loop 1
+//@     invariant [cursor] (and (<= 0 $start) (<= $start $i) (<= $i (len $A)))
+//@ func parser.lex.lexString C06 C14
+//@   inline
+//@   loop 1
+//@     invariant [cursor] (and (<= 0 $start) (< $start $i) (<= $i (len $A)))
+//@ func parser.lex.nextToken C06 C14
+//@   inline
+//@   loop 1
+//@     invariant [cursor] (and (<= 0 $start) (<= $start $i) (<= $i (len $A)))
+//@     invariant [first-rune] (=> (< $start $i) (and (not (= (idx $A $start) 34)) (not (= (idx $A $start) 59))))
+//@ func parser.lex C06 C14
+//@   requires [parser] (PARSER $p)
+//@   loop 1
+//@     invariant [cursor] (and (<= 0 $i) (<= $i (len $A)))
+
+// ---------------------------------------------------------------------------
+// C08 — configuration copies.  Stated on map contents, hence proved for every
+// iteration order of the five range loops (DESIGN 2.1: range over a map walks an
+// arbitrary enumeration; (iter.idx N k) is the position of key k in it, (iter.pos N) the cursor).
+//@ macro (COPYDOM $dst $src FIELD N) (forall ((k Int)) (! (= (mapin (fld $dst FIELD) k)
+//@      (or (old (mapin (fld $dst FIELD) k)) (and (old (mapin (fld $src FIELD) k)) (< (iter.idx N k) (iter.pos N))))) :pattern ((mapin (fld $dst FIELD) k))))
+//@ macro (COPYVAL $dst $src FIELD N) (forall ((k Int)) (! (= (mapval (fld $dst FIELD) k)
+//@      (ite (and (old (mapin (fld $src FIELD) k)) (< (iter.idx N k) (iter.pos N))) (old (mapval (fld $src FIELD) k)) (old (mapval (fld $dst FIELD) k)))) :pattern ((mapval (fld $dst FIELD) k))))
+//@ macro (COPYFRAME $dst FIELD BASE) (forall ((r Int)) (! (=> (not (= r (fld $dst FIELD)))
+//@      (= (select (heap BASE) r) (select (old (heap BASE)) r))) :pattern ((select (heap BASE) r))))
+//@ macro (DONEDOM $dst $src FIELD) (forall ((k Int)) (! (= (mapin (fld $dst FIELD) k) (or (old (mapin (fld $dst FIELD) k)) (old (mapin (fld $src FIELD) k)))) :pattern ((mapin (fld $dst FIELD) k))))
+//@ macro (DONEVAL $dst $src FIELD) (forall ((k Int)) (! (= (mapval (fld $dst FIELD) k) (ite (old (mapin (fld $src FIELD) k)) (old (mapval (fld $src FIELD) k)) (old (mapval (fld $dst FIELD) k)))) :pattern ((mapval (fld $dst FIELD) k))))
+//@ macro (MAPSOK $dst $src) (and (not (= $dst 0)) (not (= $src 0))
+//@      (not (= (fld $dst ConstantMap) 0)) (not (= (fld $dst ConstantMap) (fld $src ConstantMap)))
+//@      (not (= (fld $dst VariableKeyMap) 0)) (not (= (fld $dst VariableKeyMap) (fld $src VariableKeyMap)))
+//@      (not (= (fld $dst OperatorMap) 0)) (not (= (fld $dst OperatorMap) (fld $src OperatorMap)))
+//@      (not (= (fld $dst CompileOptions) 0)) (not (= (fld $dst CompileOptions) (fld $src CompileOptions)))
+//@      (not (= (fld $dst CostsMap) 0)) (not (= (fld $dst CostsMap) (fld $src CostsMap))))
+
+//@ func copyConfig C08
+//@   requires [maps] (MAPSOK $dst $src)
+//@   ensures [constants-dom] (DONEDOM $dst $src ConstantMap)
+//@   ensures [constants-val] (DONEVAL $dst $src ConstantMap)
+//@   ensures [constants-frame] (and (COPYFRAME $dst ConstantMap M_map_string_Value.dom) (COPYFRAME $dst ConstantMap M_map_string_Value.val))
+//@   ensures [varkeys-dom] (DONEDOM $dst $src VariableKeyMap)
+//@   ensures [varkeys-val] (DONEVAL $dst $src VariableKeyMap)
+//@   ensures [varkeys-frame] (and (COPYFRAME $dst VariableKeyMap M_map_string_VariableKey.dom) (COPYFRAME $dst VariableKeyMap M_map_string_VariableKey.val))
+//@   ensures [operators-dom] (DONEDOM $dst $src OperatorMap)
+//@   ensures [operators-val] (DONEVAL $dst $src OperatorMap)
+//@   ensures [operators-frame] (and (COPYFRAME $dst OperatorMap M_map_string_Operator.dom) (COPYFRAME $dst OperatorMap M_map_string_Operator.val))
+//@   ensures [options-dom] (DONEDOM $dst $src CompileOptions)
+//@   ensures [options-val] (DONEVAL $dst $src CompileOptions)
+//@   ensures [options-frame] (and (COPYFRAME $dst CompileOptions M_map_CompileOption_bool.dom) (COPYFRAME $dst CompileOptions M_map_CompileOption_bool.val))
+//@   ensures [costs-dom] (DONEDOM $dst $src CostsMap)
+//@   ensures [costs-val] (DONEVAL $dst $src CostsMap)
+//@   ensures [costs-frame] (and (COPYFRAME $dst CostsMap M_map_string_float64.dom) (COPYFRAME $dst CostsMap M_map_string_float64.val))
+//@   ensures [stateless-len] (= (len (fld $dst StatelessOperators)) (+ (old (len (fld $dst StatelessOperators))) (old (len (fld $src StatelessOperators)))))
+//@   ensures [stateless-fresh-or-own] (or (fresh (fld $dst StatelessOperators)) (= (s_arr (fld $dst StatelessOperators)) (old (s_arr (fld $dst StatelessOperators)))))
+//@   assigns M_map_string_Value.* M_map_string_VariableKey.* M_map_string_Operator.* M_map_CompileOption_bool.* M_map_string_float64.* F_Config.StatelessOperators E_string next
+//@   loop 1
+//@     invariant [dom] (COPYDOM $dst $src ConstantMap 1)
+//@     invariant [val] (COPYVAL $dst $src ConstantMap 1)
+//@     invariant [frame] (and (COPYFRAME $dst ConstantMap M_map_string_Value.dom) (COPYFRAME $dst ConstantMap M_map_string_Value.val))
+//@     decreases (- (iter.n 1) (iter.pos 1))
+//@   loop 2
+//@     invariant [dom] (COPYDOM $dst $src VariableKeyMap 2)
+//@     invariant [val] (COPYVAL $dst $src VariableKeyMap 2)
+//@     invariant [frame] (and (COPYFRAME $dst VariableKeyMap M_map_string_VariableKey.dom) (COPYFRAME $dst VariableKeyMap M_map_string_VariableKey.val))
+//@     decreases (- (iter.n 2) (iter.pos 2))
+//@   loop 3
+//@     invariant [dom] (COPYDOM $dst $src OperatorMap 3)
+//@     invariant [val] (COPYVAL $dst $src OperatorMap 3)
+//@     invariant [frame] (and (COPYFRAME $dst OperatorMap M_map_string_Operator.dom) (COPYFRAME $dst OperatorMap M_map_string_Operator.val))
+//@     decreases (- (iter.n 3) (iter.pos 3))
+//@   loop 4
+//@     invariant [dom] (COPYDOM $dst $src CompileOptions 4)
+//@     invariant [val] (COPYVAL $dst $src CompileOptions 4)
+//@     invariant [frame] (and (COPYFRAME $dst CompileOptions M_map_CompileOption_bool.dom) (COPYFRAME $dst CompileOptions M_map_CompileOption_bool.val))
+//@     decreases (- (iter.n 4) (iter.pos 4))
+//@   loop 5
+//@     invariant [dom] (COPYDOM $dst $src CostsMap 5)
+//@     invariant [val] (COPYVAL $dst $src CostsMap 5)
+//@     invariant [frame] (and (COPYFRAME $dst CostsMap M_map_string_float64.dom) (COPYFRAME $dst CostsMap M_map_string_float64.val))
+//@     decreases (- (iter.n 5) (iter.pos 5))
+//@   loop 6 (rangeindex)
+//@     invariant [len] (= (len (fld $dst StatelessOperators)) (+ (old (len (fld $dst StatelessOperators))) $rangeindex 1))
+//@     invariant [fresh-or-own] (or (fresh (fld $dst StatelessOperators)) (= (s_arr (fld $dst StatelessOperators)) (old (s_arr (fld $dst StatelessOperators)))))
+//@     decreases (- (old (len (fld $src StatelessOperators))) $rangeindex)
+
+//@ macro (EMPTYMAP $m BASE) (and (not (= $m 0)) (fresh $m) (forall ((k Int)) (! (not (select (select (heap BASE) $m) k)) :pattern ((select (select (heap BASE) $m) k)))))
+//@ macro (FRESHCONFIG $c) (and (not (= $c 0)) (fresh $c)
+//@      (EMPTYMAP (fld $c ConstantMap) M_map_string_Value.dom) (EMPTYMAP (fld $c VariableKeyMap) M_map_string_VariableKey.dom)
+//@      (EMPTYMAP (fld $c OperatorMap) M_map_string_Operator.dom) (EMPTYMAP (fld $c CompileOptions) M_map_CompileOption_bool.dom)
+//@      (EMPTYMAP (fld $c CostsMap) M_map_string_float64.dom)
+//@      (= (len (fld $c StatelessOperators)) 0) (or (= (s_arr (fld $c StatelessOperators)) 0) (fresh (fld $c StatelessOperators))))
+//@ macro (OLDMAPS BASE) (forall ((r Int)) (! (=> (< r (old (next))) (= (select (heap BASE) r) (select (old (heap BASE)) r))) :pattern ((select (heap BASE) r))))
+
+//@ macro (CONFIGFIELDSFRAME) (and (OLDMAPS F_Config.ConstantMap) (OLDMAPS F_Config.VariableKeyMap) (OLDMAPS F_Config.OperatorMap) (OLDMAPS F_Config.CompileOptions) (OLDMAPS F_Config.CostsMap) (OLDMAPS F_Config.StatelessOperators))
+//@ macro (ALLOLDMAPS) (and (OLDMAPS M_map_string_Value.dom) (OLDMAPS M_map_string_Value.val) (OLDMAPS M_map_string_VariableKey.dom) (OLDMAPS M_map_string_VariableKey.val)
+//@        (OLDMAPS M_map_string_Operator.dom) (OLDMAPS M_map_string_Operator.val) (OLDMAPS M_map_CompileOption_bool.dom) (OLDMAPS M_map_CompileOption_bool.val)
+//@        (OLDMAPS M_map_string_float64.dom) (OLDMAPS M_map_string_float64.val))
+//@ func NewConfig C08
+//@   ensures [non-nil] (not (= $ret0 0))
+//@   ensures [no-options-fresh-empty] (=> (= (len $opts) 0) (FRESHCONFIG $ret0))
+//@   ensures [no-options-fields-frame] (=> (= (len $opts) 0) (CONFIGFIELDSFRAME))
+//@   ensures [no-options-frame] (=> (= (len $opts) 0) (ALLOLDMAPS))
+//@   loop 1 (rangeindex)
+//@     invariant [conf] (and (not (= $conf 0)) (=> (= (len $opts) 0) (FRESHCONFIG $conf)))
+//@     invariant [frame] (=> (= (len $opts) 0) (and (CONFIGFIELDSFRAME) (ALLOLDMAPS)))
+
+//@ macro (SAMEDOM $c $o FIELD) (forall ((k Int)) (! (= (mapin (fld $c FIELD) k) (and (not (= $o 0)) (old (mapin (fld $o FIELD) k)))) :pattern ((mapin (fld $c FIELD) k))))
+//@ macro (SAMEVAL $c $o FIELD) (forall ((k Int)) (! (=> (and (not (= $o 0)) (old (mapin (fld $o FIELD) k))) (= (mapval (fld $c FIELD) k) (old (mapval (fld $o FIELD) k)))) :pattern ((mapval (fld $c FIELD) k))))
+
+//@ func CopyConfig C08
+//@   requires [origin-maps] (=> (not (= $origin 0)) (and (allocated (fld $origin ConstantMap)) (allocated (fld $origin VariableKeyMap)) (allocated (fld $origin OperatorMap))
+//@        (allocated (fld $origin CompileOptions)) (allocated (fld $origin CostsMap)) (allocated (fld $origin StatelessOperators))))
+//@   ensures [fresh] (and (not (= $ret0 0)) (fresh $ret0)
+//@        (fresh (fld $ret0 ConstantMap)) (fresh (fld $ret0 VariableKeyMap)) (fresh (fld $ret0 OperatorMap)) (fresh (fld $ret0 CompileOptions)) (fresh (fld $ret0 CostsMap))
+//@        (not (= (fld $ret0 CompileOptions) 0))
+//@        (or (= (s_arr (fld $ret0 StatelessOperators)) 0) (fresh (fld $ret0 StatelessOperators))))
+//@   ensures [same-constants] (and (SAMEDOM $ret0 $origin ConstantMap) (SAMEVAL $ret0 $origin ConstantMap))
+//@   ensures [same-varkeys] (and (SAMEDOM $ret0 $origin VariableKeyMap) (SAMEVAL $ret0 $origin VariableKeyMap))
+//@   ensures [same-operators] (and (SAMEDOM $ret0 $origin OperatorMap) (SAMEVAL $ret0 $origin OperatorMap))
+//@   ensures [same-options] (and (SAMEDOM $ret0 $origin CompileOptions) (SAMEVAL $ret0 $origin CompileOptions))
+//@   ensures [same-costs] (and (SAMEDOM $ret0 $origin CostsMap) (SAMEVAL $ret0 $origin CostsMap))
+//@   ensures [caller-maps-untouched] (ALLOLDMAPS)
+//@   ensures [stateless-len] (= (len (fld $ret0 StatelessOperators)) (ite (= $origin 0) 0 (old (len (fld $origin StatelessOperators)))))
